@@ -4,7 +4,7 @@ Applies a behaviour-preserving refactoring to a scratch copy of /repo, confirms 
 then runs ALL twenty checks on it; any VIOLATED/UNDECIDED line is a false alarm to be fixed in the checker.
 If silent, the refactoring is stored under /verif/benign/<name>.diff."""
 import sys, os, subprocess, shutil, tempfile
-patch = sys.argv[1]
+patch = os.path.abspath(sys.argv[1])
 name = sys.argv[2] if len(sys.argv) > 2 else os.path.basename(patch)
 env = dict(os.environ, GOFLAGS="-mod=mod", GOPROXY="off", GOSUMDB="off", GOTOOLCHAIN="local"); env.pop("GOWORK", None)
 def run(cmd, cwd, timeout=900):
